@@ -9,6 +9,7 @@ import (
 	"go/token"
 	"go/types"
 	"regexp"
+	"strconv"
 	"strings"
 
 	"golang.org/x/tools/go/ssa"
@@ -795,4 +796,30 @@ func init() {
 		return zero(fr.fn.Signature.Results().At(0).Type())
 	}
 	intrinsics["time.Since"] = func(fr *frame, args []value) value { return mkBV(64, 0) }
+}
+
+func init() {
+	fmtInt := func(signed bool) externalFn {
+		return func(fr *frame, args []value) value {
+			t := args[0].(*Term)
+			base := 10
+			if len(args) > 1 {
+				base = concreteInt(args[1], "strconv base")
+			}
+			if !t.IsConst() {
+				if v, ok := fr.r.smallConcretize(t, signed); ok {
+					return mkStr(strconv.FormatInt(v, base))
+				}
+				fr.r.note("decimal rendering of an unconstrained symbolic integer replaced by a placeholder")
+				return mkStr("<sym-int>")
+			}
+			if signed {
+				return mkStr(strconv.FormatInt(t.sval(), base))
+			}
+			return mkStr(strconv.FormatUint(t.Val, base))
+		}
+	}
+	intrinsics["strconv.Itoa"] = fmtInt(true)
+	intrinsics["strconv.FormatInt"] = fmtInt(true)
+	intrinsics["strconv.FormatUint"] = fmtInt(false)
 }
